@@ -1,6 +1,6 @@
 (* C11 — empirical error estimates are the segment scatter in spectral units (statements only) *)
 From Coq Require Import ZArith List Bool Reals.
-From SK Require Import Arith Cpx KernelPrims Kernels AttrThms GenRef CauchySchwarz KernelCS.
+From SK Require Import Arith Cpx KernelPrims Kernels AttrThms GenRef CauchySchwarz KernelCS Rms Scatter.
 From SK.gen Require Import AttrsGen KernelsGen.
 Import ListNotations.
 Section C11.
@@ -33,3 +33,15 @@ Print Assumptions C11_M2_single_segment.
 Print Assumptions C11_M2_nonneg.
 Print Assumptions C11_emp_var.
 Print Assumptions C11_M2_no_segment.
+(* scatter about the mean, not about zero and not with Re(mu^2): for per-segment products Z_k = (a_k, b_k) of any length n >= 1,
+   mean |Z_k - mu|^2 = mean |Z_k|^2 - (mu_r^2 + mu_i^2); a one-pass form subtracting Re(mu^2) exceeds it by exactly 2 mu_i^2 *)
+Theorem C11_scatter_is_second_moment_minus_mean_modulus : forall a b : list R, a <> [] -> length a = length b ->
+  ((sumsq_dev a (mean a) + sumsq_dev b (mean b)) / INR (length a) =
+   (sumsq a + sumsq b) / INR (length a) - (mean a * mean a + mean b * mean b))%R.
+Proof. exact koenig_huygens_complex. Qed.
+Theorem C11_one_pass_with_real_part_of_square_is_wrong : forall a b : list R, a <> [] -> length a = length b ->
+  ((sumsq a + sumsq b) / INR (length a) - (mean a * mean a - mean b * mean b) =
+   (sumsq_dev a (mean a) + sumsq_dev b (mean b)) / INR (length a) + 2 * (mean b * mean b))%R.
+Proof. exact wrong_one_pass_excess. Qed.
+Print Assumptions C11_scatter_is_second_moment_minus_mean_modulus.
+Print Assumptions C11_one_pass_with_real_part_of_square_is_wrong.
